@@ -84,6 +84,28 @@ enum FChip {
     Lr1110,
 }
 
+/// Programs modulation and packet parameters (every bandwidth in turn) before the channel is set.
+fn prime<RK: RadioKind>(rk: &mut RK, k: u64, rng: &mut Prng, col: &mut Collector) {
+    if k % 3 == 0 {
+        return;
+    }
+    let bw = BWS[((k / 3) % 10) as usize];
+    let sf = SFS[rng.below(8) as usize];
+    let cr = CRS[rng.below(4) as usize];
+    let r = trap(|| {
+        let mp = rk.create_modulation_params(sf, bw, cr, 868_100_000)?;
+        block_on(rk.set_modulation_params(&mp))?;
+        let pp = rk.create_packet_params(8, false, 32, true, false, &mp)?;
+        block_on(rk.set_packet_params(&pp))
+    });
+    match r {
+        Ok(Ok(())) => col.event("freq_blocks_after_modulation_params"),
+        // a pair the chip does not support, or a panic the statement does not speak about: the block
+        // runs on whatever was programmed
+        _ => col.event("freq_blocks_priming_refused"),
+    }
+}
+
 fn freq_sweep<RK: RadioKind>(chip: FChip, name: &str, rk: &mut RK, bus: &Bus, idx: u64, col: &mut Collector) {
     let sg = segs(col.tier);
     let b = freq_block(col.tier);
@@ -223,16 +245,28 @@ impl Monitor for C17 {
 
     fn run_case(&self, g: &str, idx: u64, rng: &mut Prng, col: &mut Collector) {
         match g {
+            // two blocks in three run on a driver whose modulation and packet parameters were programmed
+            // first, the way every prepare_for_* does before it sets the channel (all ten bandwidths: what the
+            // driver does for a bandwidth - errata, IF settings - must not move the carrier it is asked for)
             "freq-sx126x" => {
                 let (mut rk, bus) = new_sx1262();
+                prime(&mut rk, idx, rng, col);
                 freq_sweep(FChip::Sx126x, "sx126x", &mut rk, &bus, idx, col);
             }
             "freq-sx127x" => {
-                let (mut rk, bus) = new_sx1276(false);
-                freq_sweep(FChip::Sx127x, "sx127x", &mut rk, &bus, idx, col);
+                if idx % 2 == 0 {
+                    let (mut rk, bus) = new_sx1276(rng.bool());
+                    prime(&mut rk, idx / 2, rng, col);
+                    freq_sweep(FChip::Sx127x, "sx127x", &mut rk, &bus, idx, col);
+                } else {
+                    let (mut rk, bus) = new_sx1272(rng.bool());
+                    prime(&mut rk, idx / 2, rng, col);
+                    freq_sweep(FChip::Sx127x, "sx127x", &mut rk, &bus, idx, col);
+                }
             }
             "freq-lr1110" => {
                 let (mut rk, bus) = new_lr1110(lora_phy::lr1110::PaSelection::Lp);
+                prime(&mut rk, idx, rng, col);
                 freq_sweep(FChip::Lr1110, "lr1110", &mut rk, &bus, idx, col);
             }
             "power" => power::run(idx, rng, col),
